@@ -1171,3 +1171,24 @@ pub fn c13_case(ctx: &mut Ctx, rng: &mut Rng) {
         ctx.sample(json!({"history": hist, "opts": o, "left_order": lmap, "right_order": rmap, "reference_left_counts": want_l, "reference_right_counts": want_r}));
     }
 }
+
+/// Deterministic witnesses for defects repaired by `fix:` commits (C07): they must stay repaired.
+pub fn c07_witnesses(ctx: &mut Ctx) {
+    // connection id 65535 with the raw connector (index arithmetic in u16 used to overflow)
+    let mut right = String::new();
+    for i in 1..=65535u32 {
+        right += &format!("{i}\t{}\n", if i == 65535 { "x" } else { "z" });
+    }
+    let conn = ConnTexts::Bigram { right: right.into_bytes(), left: b"1\ty\n".to_vec(), cost: b"x/y\t5\nz/y\t-3\n".to_vec(), dual: false };
+    ctx.eval();
+    let case = json!({"bigram.right": "65535 lines `i<TAB>z`, the last one `65535<TAB>x`", "bigram.left": "1\ty", "bigram.cost": "x/y\t5\nz/y\t-3", "lex.csv": "a,1,65535,0,A"});
+    match build_from_texts(b"a,1,65535,0,A\n", b"DEFAULT 0 1 0\n", b"DEFAULT,0,0,100,U\n", &conn) {
+        BuildOutcome::Ok(d) => match guarded(|| (vibrato::verif::conn_cost(&d, 65535, 1), vibrato::verif::conn_cost(&d, 65534, 1), vibrato::verif::conn_cost(&d, 65535, 0))) {
+            Ok((5, -3, 0)) => ctx.bucket("witness_raw_connector_id_65535_ok"),
+            Ok(v) => ctx.violation("raw_connector_differs_from_defining_sum", "C07:witness:id-65535", format!("costs (65535,1), (65534,1), (65535,0) = {:?}, expected (5, -3, 0)", v), case),
+            Err(p) => ctx.violation("raw_connector_lookup_panicked", "C07:witness:id-65535", p, case),
+        },
+        BuildOutcome::Err(e) => ctx.note(format!("C07 witness id 65535: builder rejected: {e}")),
+        BuildOutcome::Panic(p) => ctx.violation("raw_connector_build_panicked", "C07:witness:id-65535", p, case),
+    }
+}
